@@ -326,23 +326,35 @@ Section Sim.
     Hypothesis Hel : forall x d, sim (el1 x d) (el2 x d).
     Variable dflt : A.
 
-    Lemma sim_load_existing cont : forall data, sim (load_existing el1 cont data) (load_existing el2 cont data).
+    Lemma sim_reset asg x d : sim (reset_unloaded el1 dflt asg x d) (reset_unloaded el2 dflt asg x d).
+    Proof.
+      unfold reset_unloaded.
+      eapply sim_ext; [| |apply (sim_bind (el1 x d) (el2 x d)
+           (fun vl l => Ok (if (asg && negb (snd vl))%bool then dflt else fst vl, snd vl, l))
+           (fun vl c => Ok (if (asg && negb (snd vl))%bool then dflt else fst vl, snd vl, c)))].
+      - ext_tac.
+      - ext_tac.
+      - apply Hel.
+      - intros vl. apply sim_ret.
+    Qed.
+
+    Lemma sim_load_existing asg cont : forall data, sim (load_existing el1 dflt asg cont data) (load_existing el2 dflt asg cont data).
     Proof.
       induction cont as [|x cont IH]; intros data.
       - destruct data; apply sim_ret.
       - destruct data as [|d data]; [apply sim_ret|].
         cbn [load_existing].
-        eapply sim_ext; [| |apply (sim_bind (el1 x d) (el2 x d)
-             (fun vl l => '(r, l2) <- load_existing el1 cont data l ;; let '(r0, rest, n) := r in Ok (fst vl :: r0, rest, Datatypes.S n, l2))
-             (fun vl c => '(r, c2) <- load_existing el2 cont data c ;; let '(r0, rest, n) := r in Ok (fst vl :: r0, rest, Datatypes.S n, c2)))].
-        + ext_tac.
-        + ext_tac.
-        + apply Hel.
-        + intros vl. eapply sim_ext; [| |apply (sim_bind (load_existing el1 cont data) (load_existing el2 cont data)
+        eapply sim_ext; [| |apply (sim_bind (reset_unloaded el1 dflt asg x d) (reset_unloaded el2 dflt asg x d)
+             (fun vl l => '(r, l2) <- load_existing el1 dflt asg cont data l ;; let '(r0, rest, n) := r in Ok (fst vl :: r0, rest, Datatypes.S n, l2))
+             (fun vl c => '(r, c2) <- load_existing el2 dflt asg cont data c ;; let '(r0, rest, n) := r in Ok (fst vl :: r0, rest, Datatypes.S n, c2)))].
+        + intros l. cbn [bind fst]. ext_steps_r.
+        + intros c. cbn [bind fst]. ext_steps_r.
+        + apply sim_reset.
+        + intros vl. eapply sim_ext; [| |apply (sim_bind (load_existing el1 dflt asg cont data) (load_existing el2 dflt asg cont data)
              (fun r l => let '(r0, rest, n) := r in Ok (fst vl :: r0, rest, Datatypes.S n, l))
              (fun r c => let '(r0, rest, n) := r in Ok (fst vl :: r0, rest, Datatypes.S n, c)))].
-          * ext_tac.
-          * ext_tac.
+          * intros l. cbn [bind fst]. ext_steps_r.
+          * intros c. cbn [bind fst]. ext_steps_r.
           * apply IH.
           * intros [[r0 rest] n]. apply sim_ret.
     Qed.
@@ -366,10 +378,10 @@ Section Sim.
         + intros r. apply sim_ret.
     Qed.
 
-    Lemma sim_load_loops cont0 data : sim (load_loops el1 dflt cont0 data) (load_loops el2 dflt cont0 data).
+    Lemma sim_load_loops asg cont0 data : sim (load_loops el1 dflt asg cont0 data) (load_loops el2 dflt asg cont0 data).
     Proof.
       unfold load_loops.
-      eapply sim_ext; [| |apply (sim_bind (load_existing el1 cont0 data) (load_existing el2 cont0 data)
+      eapply sim_ext; [| |apply (sim_bind (load_existing el1 dflt asg cont0 data) (load_existing el2 dflt asg cont0 data)
            (fun r l => '(ap, l2) <- load_appended el1 dflt (snd (fst r)) l ;;
                        Ok (resize dflt (snd r + snd ap) (fst (fst r) ++ fst ap), l2))
            (fun r c => '(ap, c2) <- load_appended el2 dflt (snd (fst r)) c ;;
@@ -386,7 +398,7 @@ Section Sim.
         + intros ap. apply sim_ret.
     Qed.
 
-    Lemma sim_load_seq prior est data : sim (load_seq el1 dflt prior est data) (load_seq el2 dflt prior est data).
+    Lemma sim_load_seq asg prior est data : sim (load_seq el1 dflt asg prior est data) (load_seq el2 dflt asg prior est data).
     Proof. unfold load_seq. apply sim_load_loops. Qed.
   End SimSeq.
 
@@ -525,8 +537,8 @@ Section LoaderSim.
       intros fs IH path v d. cbn [load_fty].
       destruct (open_array a pl d) as [[[est ds]|]|e]; cbn [bind].
       + match goal with
-        | |- sim _ (fun c => bind (load_seq ?e1 ?df ?p ?es ?dd c) _) (fun c0 => bind (load_seq ?e2 _ _ _ _ c0) _) =>
-            eapply sim_ext; [| |apply (sim_bind sink (load_seq e1 df p es dd) (load_seq e2 df p es dd)
+        | |- sim _ (fun c => bind (load_seq ?e1 ?df ?ag ?p ?es ?dd c) _) (fun c0 => bind (load_seq ?e2 _ _ _ _ _ c0) _) =>
+            eapply sim_ext; [| |apply (sim_bind sink (load_seq e1 df ag p es dd) (load_seq e2 df ag p es dd)
                (fun r l => Ok (r, true, l)) (fun r c => Ok (r, true, c)))]
         end.
         * ext_tac.
